@@ -42,6 +42,39 @@ def stub_table(src, cls_suffix):
     return table
 
 
+def shared_state(src):
+    """-> [(class, attribute, rebound_in_init)] for class-level attributes initialised with a mutable literal"""
+    out = []
+    for cls in ast.parse(src).body:
+        if not isinstance(cls, ast.ClassDef):
+            continue
+        mut = []
+        for st in cls.body:
+            tgt = val = None
+            if isinstance(st, ast.AnnAssign) and isinstance(st.target, ast.Name):
+                tgt, val = st.target.id, st.value
+            elif isinstance(st, ast.Assign) and len(st.targets) == 1 and isinstance(st.targets[0], ast.Name):
+                tgt, val = st.targets[0].id, st.value
+            if tgt and isinstance(val, (ast.Dict, ast.List, ast.Set)) or (
+                    tgt and isinstance(val, ast.Call) and isinstance(val.func, ast.Name) and val.func.id in ("dict", "list", "set")):
+                mut.append(tgt)
+        init = [f for f in cls.body if isinstance(f, ast.FunctionDef) and f.name == "__init__"]
+        rebound = set()
+        for f in init:
+            for node in ast.walk(f):
+                t = None
+                if isinstance(node, ast.AnnAssign):
+                    t = node.target
+                elif isinstance(node, ast.Assign):
+                    t = node.targets[0]
+                if isinstance(t, ast.Attribute) and isinstance(t.value, ast.Name) and t.value.id == "self":
+                    rebound.add(t.attr)
+        for a in mut:
+            if init:
+                out.append((cls.name, a, a in rebound))
+    return out
+
+
 def table_diff(g):
     """-> (oks, mismatches{key: text}, tables) for the emitted gRPC stub tables of the rendered API"""
     oks, bad = [], {}
@@ -104,6 +137,16 @@ def body(chk: core.Check):
         chk.ok("stub-table (concrete diff)", k)
     for k, text in bad.items():
         chk.violation(k, text, {"kind": "stub-table", "diff_key": k})
+    # instance state: a class-level mutable default of an emitted transport class must be re-bound in __init__,
+    # otherwise two transports (two channels) share it -- e.g. the stub cache (concrete AST check)
+    for fname in ("grpc.py", "grpc_asyncio.py", "rest.py"):
+        for cname, attr, ok in shared_state(g.text(f"services/library/transports/{fname}")):
+            key = f"instance-state:{fname}:{cname}.{attr}"
+            if ok:
+                chk.ok("instance-state (concrete AST)", key)
+            else:
+                chk.violation(key, f"{cname}.{attr} is a class-level mutable default that __init__ never re-binds: every "
+                              "instance (every channel) shares it", {"kind": "instance-state", "file": fname, "cls": cname, "attr": attr})
     chk.sample({"stub_table_grpc": {k: v[:2] for k, v in list(tables["grpc"].items())[:4]}})
     # ---- solver part ----------------------------------------------------------------------
     _client.run_funcs(
@@ -113,6 +156,13 @@ def body(chk: core.Check):
 
 
 def replay(chk, data):
+    if data.get("kind") == "instance-state":
+        from lib import gen
+        g = gen.generate(apis.client_api(), parameter="transport=grpc+rest", service_yaml=apis.CLIENT_SERVICE_YAML)
+        for cname, attr, ok in shared_state(g.text(f"services/library/transports/{data['file']}")):
+            if (cname, attr) == (data["cls"], data["attr"]) and not ok:
+                return data["text"]
+        return None
     if data.get("kind") == "stub-table":
         from lib import gen
         g = gen.generate(apis.client_api(), parameter="transport=grpc+rest", service_yaml=apis.CLIENT_SERVICE_YAML)
